@@ -574,6 +574,7 @@ func (w *World) Finish(scenario string, meta map[string]any) []map[string]any {
 			m["ts"] = ev.Ts
 			m["leafOk"] = ev.LeafOK
 			m["sct"] = ev.SCT
+			m["sctId"] = ev.Note
 		case "RoundEnd", "LoadEnd", "CreateEnd", "SequencerStopped":
 			m["class"] = ev.Class
 		case "LoadStart", "CreateStart":
